@@ -60,8 +60,9 @@ SldClause(e) ==
      ELSE IF ~Close(MulP(e.rho_im.v, M, 14), MulP(c, SumF(e.ps, "f2"), 14), -10) THEN "SldImag"
      ELSE IF "n_re" \notin DOMAIN e THEN "ok"
      ELSE LET l2 == Sq(e.lam)  twopi == MulInt(Pi, 2)
-          IN IF ~CloseScaled(MulP(Sub(One, e.n_re.v), twopi, 14), MulP(MulP(l2, e.rho_re.v, 14), Sci(1, -6), 14), -9,
-                             MulP(MulP(l2, Abs(e.rho_re.v), 14), Sci(1, -6), 14)) THEN "RefractionReal"
+          \* n = 1 - delta with delta as small as 1e-10: compared on n itself (1 - n recovered from a double has lost
+          \* most of its digits), delta = lambda^2 rho 1e-6 / (2 pi)
+          IN IF ~Close(e.n_re.v, Sub(One, Div(MulP(MulP(l2, e.rho_re.v, 14), Sci(1, -6), 14), twopi, 14)), -14) THEN "RefractionReal"
              ELSE IF ~Close(MulP(Neg(e.n_im.v), twopi, 14), MulP(MulP(l2, e.rho_im.v, 14), Sci(1, -6), 14), -10) THEN "RefractionImag"
              ELSE "ok"
 Same2(a, b, tol) == (a.re.k = b.re.k) /\ (a.im.k = b.im.k) /\ (Num(a.re) => Close(a.re.v, b.re.v, tol)) /\ (Num(a.im) => Close(a.im.v, b.im.v, tol))
